@@ -79,12 +79,13 @@ def feature_text(r, bases, ligs, marks, use_ext):
         lg.append(f"sub {' '.join(comp)} by {lig};")
     L.append("lookup LG { " + " ".join(lg) + " } LG;")
     t1, t2 = pick(bases, 2)
-    L.append(f"lookup CH {{ sub {pick(bases,1)[0]} {t1}' lookup SS {pick(bases,1)[0]}; sub [{' '.join(pick(bases,3))}]' lookup SS [{' '.join(pick(bases,2))}]; }} CH;")
+    ext2 = " useExtension" if (use_ext and r.random() < 0.7) else ""  # Extension-wrapped lookups whose subtables carry coverage-indexed arrays
+    L.append(f"lookup CH{ext2} {{ sub {pick(bases,1)[0]} {t1}' lookup SS {pick(bases,1)[0]}; sub [{' '.join(pick(bases,3))}]' lookup SS [{' '.join(pick(bases,2))}]; }} CH;")
     rv = pick(bases, 3)
     rcov = list(dict.fromkeys(pick(bases, r.randint(3, 5))))  # several covered glyphs, each with its own substitute
     rsubst = [pick(bases, 1)[0] for _ in rcov]
-    L.append(f"lookup RV {{ rsub {rv[0]} [{' '.join(rcov)}]' {rv[2]} by [{' '.join(rsubst)}]; rsub {rv[0]} {pick([g for g in bases if g != rv[1]],1)[0]}' {rv[2]} by {pick(bases,1)[0]}; }} RV;")
-    L.append(f"lookup CHP {{ pos {pick(bases,1)[0]} {t2}' lookup SP1 {pick(bases,1)[0]}; }} CHP;")
+    L.append(f"lookup RV{ext2} {{ rsub {rv[0]} [{' '.join(rcov)}]' {rv[2]} by [{' '.join(rsubst)}]; rsub {rv[0]} {pick([g for g in bases if g != rv[1]],1)[0]}' {rv[2]} by {pick(bases,1)[0]}; }} RV;")
+    L.append(f"lookup CHP{ext2} {{ pos {pick(bases,1)[0]} {t2}' lookup SP1 {pick(bases,1)[0]}; }} CHP;")
     L.append("feature kern { lookup SP1; lookup SP2; lookup PP1; lookup PP2; lookup CHP; } kern;")
     L.append("feature dist { lookup PP1B; } dist;")
     L.append("feature curs { lookup CUR; } curs;")
